@@ -21,6 +21,10 @@ if os.path.exists(cf):
     m["confirmed_by_orchestrator"] = json.load(open(cf))
 m["what_we_ran"] = ["tools/seed_confirm.sh %s  (scratch worktree: apply, full cmake build, ctest, demo with/without patch)" % d,
                     "tools/seed_eval.sh %s %s %s  (check run against a scratch worktree of /repo with the patch applied)" % (pid, d, tier)]
+prev = m.get("check_result")
+if prev and "first_result" not in m and (not prev.get("caught") or all("no-failing-input-found" in v for v in prev.get("violation_lines", ["x"]))):
+    m["first_result"] = {"caught": prev.get("caught"), "violation_lines": prev.get("violation_lines"),
+                         "note": "outcome with the check as first built; the check was then strengthened (see DESIGN.md 10.4)"}
 m["check_result"] = {"tier": tier, "exit": p.returncode, "caught": bool(viol) and p.returncode == 1,
                      "violation_lines": [l.replace("/tmp/verif-eval", "/verif") for l in viol],
                      "summary_line": next((l for l in out if l.startswith("[" + pid)), "")}
